@@ -7,7 +7,7 @@ from checklib import Check, Family
 fams = []
 def fam(name, entry, tier='quick', witness=False, w=1, page=64, **kw):
     defs = ['%s=%s' % (k, v) for k, v in kw.items()] + (['WITNESS=1'] if witness else [])
-    fams.append(Family(name + ('-witness' if witness else ''), 'h_c20.c', entry, defs, opts={'pagesize': page, 'time_limit': 420 if tier == 'quick' else 2400},
+    fams.append(Family(name + ('-witness' if witness else ''), 'h_c20.c', entry, defs, opts={'pagesize': page, 'time_limit': 900 if tier == 'quick' else 2400},
                        tier=tier, witness=witness, weight=w, validate=3))
 for sz, num in ((8, 1), (16, 3), (24, 2), (64, 1)):
     fam('history-sz%d-n%d' % (sz, num), 'h_dynamic', OBJSZ=sz, OBJNUM=num, LEN=7, w=3)
